@@ -68,11 +68,13 @@ func checkC07(r *core.Run) {
 		info := f.Pkg.TypesInfo
 		for _, cs := range w.Calls(f) {
 			if core.IsPkgFunc(cs.Static, pTM, "SetTx") && len(cs.Call.Args) == 2 {
-				if cl := findCompositeLit(f, cs.Call.Args[1]); cl != nil {
-					if c := core.ConstObj(info, litField(cl, "TxRole")); c != nil && c.Name() == "Participant" {
+				// (the transaction value may be built by a constructor helper of the package)
+				if cl, owner := findLitDeep(f, cs.Call.Args[1], 3); cl != nil {
+					if c := core.ConstObj(owner.Pkg.TypesInfo, litField(cl, "TxRole")); c != nil && c.Name() == "Participant" {
 						joinFn = f
 					}
 				}
+				_ = info
 			}
 			if cs.Static == beginM && f.Obj.Name() != "Begin" {
 				newFn = f
@@ -90,11 +92,15 @@ func checkC07(r *core.Run) {
 		info := joinFn.Pkg.TypesInfo
 		for _, cs := range w.Calls(joinFn) {
 			if core.IsPkgFunc(cs.Static, pTM, "SetTx") {
-				cl := findCompositeLit(joinFn, cs.Call.Args[1])
+				cl, owner := findLitDeep(joinFn, cs.Call.Args[1], 3)
+				if cl == nil {
+					continue
+				}
 				r.Sites++
-				x := origin(joinFn, litField(cl, "Xid"), 4)
+				x, _ := litFieldOrigin(joinFn, cs.Call.Args[1], "Xid", 4)
 				r.Check(strings.Contains(x, "call:pkg/tm.GetXID(param:ctx)"), "C07.join", core.ShortKey(joinFn.Obj)+" keeps the xid", w.Pos(cs.Call.Pos()), "Xid = tm.GetXID(ctx)", "the joined transaction's xid derives from "+x+" instead of the existing xid")
-				c := core.ConstObj(info, litField(cl, "TxRole"))
+				c := core.ConstObj(owner.Pkg.TypesInfo, litField(cl, "TxRole"))
+				_ = info
 				r.Check(c != nil && c.Name() == "Participant", "C07.join", core.ShortKey(joinFn.Obj)+" role Participant", w.Pos(cs.Call.Pos()), "role Participant", "joining must set role Participant")
 			}
 		}
